@@ -11,6 +11,8 @@ use std::sync::atomic::{AtomicU64, Ordering};
 use std::time::{Duration, Instant};
 
 static COUNTER: AtomicU64 = AtomicU64::new(0);
+/// Address-space limit (MiB) applied to every spawned zinoma.
+pub static AS_LIMIT_MB: AtomicU64 = AtomicU64::new(16 * 1024);
 
 pub fn scratch_base() -> PathBuf {
     if let Ok(p) = std::env::var("ZV_SCRATCH") {
@@ -297,12 +299,13 @@ pub fn spawn_zinoma(
         cmd.env(k, v);
     }
     cmd.stdin(Stdio::null()).stdout(out).stderr(err);
+    let as_limit = AS_LIMIT_MB.load(Ordering::Relaxed) << 20;
     unsafe {
-        cmd.pre_exec(|| {
+        cmd.pre_exec(move || {
             // bound the address space: a corrupted state file must not take the box down
             let lim = libc::rlimit {
-                rlim_cur: 16 << 30,
-                rlim_max: 16 << 30,
+                rlim_cur: as_limit,
+                rlim_max: as_limit,
             };
             libc::setrlimit(libc::RLIMIT_AS, &lim);
             let core = libc::rlimit {
